@@ -87,3 +87,57 @@ Theorem C05_resolver_progress_measure :
     DepMeasure.dmu c n d' < DepMeasure.dmu c n d.
 Proof. exact DepMeasure.dstep_decreases. Qed.
 Print Assumptions C05_resolver_progress_measure.
+
+(* ---- REFUTED on the code as it is: witnesses by computation on the executable models
+   (Proofs/Refute.v); each is a recorded finding (KNOWN_FINDINGS.txt) ---- *)
+From EL Require Model.Exec Model.ExecInv Model.StepExec Model.FileExec Model.FileSpec Model.CacheExec Proofs.FileSafe Proofs.FileRefute Proofs.CacheSafe Proofs.Refute.
+Module RefutedC05.
+Import Exec ExecInv StepExec FileExec FileSpec CacheExec FileSafe FileRefute CacheSafe Refute.
+Import ListNotations.
+
+(* finding D23: two block workers, a failing call: nothing can move any more while a surviving worker waits in queue.join() for ever; if the failing thread is not the first one joined the client itself is blocked inside shutdown(wait=True) *)
+Theorem C05_refuted_failed_call_blocks_shutdown :
+  (erun d23_cfg d23a_sched d23_init = Some d23a_state
+   /\ enabled d23_cfg d23a_state = []                                (* nothing can move *)
+   /\ main d23a_state = MJoin 0                                      (* the client: in join of W1 *)
+   /\ ops d23a_state = [OShutdown true false; ODrop]                 (* ... inside the shutdown *)
+   /\ outs d23a_state = [XOk]
+   /\ map wp (ws d23a_state) = [WSQJoin; WDead]                      (* W1: in queue.join() *)
+   /\ map pp (ps d23a_state) = [PExit; PExit]
+   /\ getq d23a_state 0 = mkQ [Shut true] 1                          (* W2's message is never taken *)
+   /\ qunf (getq d23a_state 0) <> 0
+   /\ main d23a_state <> MEnd
+   /\ getf d23a_state 1 = FExc
+   /\ reach d23_cfg d23_init d23a_state)
+  /\
+  (erun d23_cfg d23b_sched d23_init = Some d23b_state
+   /\ enabled d23_cfg d23b_state = []
+   /\ main d23b_state = MEnd /\ outs d23b_state = [XOk; XRaise]      (* the shutdown raised *)
+   /\ map wp (ws d23b_state) = [WDead; WSQJoin]                      (* W2: in queue.join() for ever *)
+   /\ existsb (fun w => match wp w with WSQJoin => true | _ => false end) (ws d23b_state) = true
+   /\ map pp (ps d23b_state) = [PExit; PExit]
+   /\ getq d23b_state 0 = mkQ [Shut true] 1
+   /\ qunf (getq d23b_state 0) <> 0
+   /\ getf d23b_state 1 = FExc
+   /\ reach d23_cfg d23_init d23b_state).
+Proof. exact block_failed_call_blocks_survivors. Qed.
+Print Assumptions C05_refuted_failed_call_blocks_shutdown.
+
+(* finding D25: after a shutdown that re-raised a failed call's exception the executor still accepts a submit; that call never runs and result() blocks for ever *)
+Theorem C05_refuted_submit_accepted_after_failed_shutdown :
+  erun d25_cfg d25_pre d25_init = Some d25_s0
+  /\ main d25_s0 = MJoin 0 /\ map wp (ws d25_s0) = [WDead]
+  /\ step d25_cfg d25_s0 TM = Some (d25_s1, LTJoin 1)
+  /\ outs d25_s1 = [XOk; XRaise] /\ closed d25_s1 = false             (* the shutdown raised *)
+  /\ step d25_cfg d25_s1 TM = Some (d25_s2, LPut 0 (Task 2))
+  /\ outs d25_s2 = [XOk; XRaise; XOk]                                 (* submit 2 accepted *)
+  /\ main d25_s2 = MOp /\ ops d25_s2 = [OResult 2; ODrop]             (* the client: in result(2) *)
+  /\ hd_error (ops d25_s2) = Some (OResult 2)
+  /\ getf d25_s2 2 = FPending
+  /\ map wp (ws d25_s2) = [WDead] /\ map pp (ps d25_s2) = [PExit]     (* no worker is left *)
+  /\ getq d25_s2 0 = mkQ [Shut true; Task 2] 2
+  /\ enabled d25_cfg d25_s2 = []                                      (* nothing can move *)
+  /\ reach d25_cfg d25_init d25_s2.
+Proof. exact block_submit_accepted_after_failed_shutdown. Qed.
+Print Assumptions C05_refuted_submit_accepted_after_failed_shutdown.
+End RefutedC05.
